@@ -55,10 +55,10 @@ func resolveAlts(want, got interface{}) interface{} {
 
 // Cfg is one combination of the package-level decoder options.
 type Cfg struct {
-	AttrPrefix, KeyPrefix                               string
+	AttrPrefix, KeyPrefix                                 string
 	Lower, Snake, SimpleAsMap, KeepSpaces, SeqNum, DecEsc bool
-	Cast                                                bool // the cast argument of the decode call
-	CastInt, CastFloat, CastBool, CastNanInf, SkipFunc  bool
+	Cast                                                  bool // the cast argument of the decode call
+	CastInt, CastFloat, CastBool, CastNanInf, SkipFunc    bool
 }
 
 func DefaultCfg() Cfg {
